@@ -18,6 +18,7 @@ import time
 import jinja2
 
 import common
+import pubscan
 from common import Check, sx
 from vinegar.template import jinja as J
 
@@ -421,10 +422,29 @@ def run_engine(c):
         os.chdir(old)
 
 
+def granted(helper, module):
+    """the allow-list decision through the PUBLIC subscript: python['<module>.x'] raises RuntimeError iff access to the
+    module is denied; whatever the import of an admitted name then does (ModuleNotFoundError, ValueError, ...) is not
+    the allow-list's business"""
+    try:
+        helper[module + ".verif_no_such_attribute"]
+    except RuntimeError:
+        return False
+    except Exception:          # noqa
+        return True
+    return True
+
+
+def cache_len(helper):
+    """size of the helper's result cache: the one dict among its attributes"""
+    ds = [v for v in vars(helper).values() if isinstance(v, dict)]
+    return len(ds[0]) if ds else 0
+
+
 def run_helper(c):
     allow = c["allow"]
     eng = J.get_instance({"provide_python_modules": allow[0] if c.get("as_str") else list(allow)})
-    helper = eng._environment.globals["python"]
+    helper = pubscan.jinja_environment(eng).globals["python"]
     res = []
     if c.get("via_template"):
         T = tmp()
@@ -442,18 +462,11 @@ def run_helper(c):
         for i, m in enumerate(c["queries"]):
             if c.get("other_allow") and i == len(c["queries"]) // 2:
                 # a second engine with ANOTHER allow-list is constructed and asked the same things meanwhile
-                other = J.get_instance({"provide_python_modules": c["other_allow"]})._environment.globals["python"]
+                other = pubscan.jinja_environment(J.get_instance({"provide_python_modules": c["other_allow"]})).globals["python"]
                 for q in c["queries"]:
-                    try:
-                        other._check_access(q)
-                    except RuntimeError:
-                        pass
-            try:
-                helper._check_access(m)
-                res.append(True)
-            except RuntimeError:
-                res.append(False)
-    return (res, len(helper._cache))
+                    granted(other, q)
+            res.append(granted(helper, m))
+    return (res, cache_len(helper))
 
 
 GETITEM_KEYS = ["os.getcwd", "os.path.join", "os.environ.get", "os.sys.modules", "os.path.sep.join", "string.Template.delimiter",
